@@ -12,7 +12,8 @@ RULE = ("real MoleculeStandardizer()(smiles) on generated families (enols, enola
         "made inside real pipeline runs; oracle: no exception, parsable output, same composition and charge, "
         "idempotent; distinct non-trivial = distinct inputs in which the library's own functional-group query "
         "finds an enol or hemiketal group (a rewrite is attempted)")
-ASSUMPTIONS = ["domain: non-empty valid closed-shell SMILES", "composition by the independent RDKit oracle"]
+ASSUMPTIONS = ["domain: non-empty valid closed-shell SMILES (open-shell spellings are shorthand in this code base: the repository's own "
+               "test test_hemiketal_transformation_with_aam pins '[C:1]([O:2])([OH:3])' -> '[C:1]=[O:3].[OH2:2]', a result that gains hydrogens)", "composition by the independent RDKit oracle"]
 TIMEOUT = {"quick": 900, "thorough": 3000}
 
 R = ["C", "CC", "c1ccccc1", "C1CCCCC1", "CC(C)", "CCOC", "c1ccncc1", "C(F)(F)F", "CCN(C)C", "CS"]
@@ -34,6 +35,9 @@ FAMILIES = [
     ("cascade", ["C=COC(C)(O)%s", "C=COC(O)%s", "CC=COC(O)(C)%s", "OC1(%s)CCC=CO1", "OC1(C)OC=CC1%s", "C=C(%s)OC(C)(C)O",
                  "OC(%s)(C)OC(C)(C)O", "COC(O)(OC(C)(C)O)%s", "C=COC(O)(O)%s", "OC(O)(OC=C)OC=C", "OC(%s)OC(C)=C",
                  "OC(C)(OC=C)OC(C)(O)%s", "C=COC(O)(%s)C=CO", "OC1(OC=C)CCCC1", "OC(OC(=C)%s)C=C"]),
+    # SMILES syntax level: a ring-closure bond across a dot (the '.'-separated pieces are not SMILES)
+    ("dot_closure", ["OC=C1.C1", "C1=CO.C1%s", "CC(O)(O)C1.C1", "OC=C1.C1.[Na+].[Cl-]", "C1(O)=C.C1%s", "OC1(%s)O.C1",
+                     "C=C(O)C1.O1", "COC1(O)C.C1"]),
     ("no_group", ["%sC(=O)C", "%sCO", "%sC(=O)O", "%sOC", "c1ccccc1%s"]),
 ]
 
